@@ -90,3 +90,48 @@ let zerv c =
   let z_schema = schema c in
   let z_vars = vars c in
   { z_schema; z_vars }
+
+(* ---------------------------------------------------------------- encoding (mirror of harness enc_zerv) *)
+let on = function Some n -> dec_of_n n | None -> "~"
+let os = function Some s -> field_of_str s | None -> "~"
+
+let var_name = function
+  | Major -> "Major" | Minor -> "Minor" | Patch -> "Patch" | Epoch -> "Epoch" | PreRelease -> "PreRelease" | Post -> "Post" | Dev -> "Dev"
+  | Distance -> "Distance" | Dirty -> "Dirty" | BumpedBranch -> "BumpedBranch" | BumpedCommitHash -> "BumpedCommitHash"
+  | BumpedCommitHashShort -> "BumpedCommitHashShort" | BumpedTimestamp -> "BumpedTimestamp" | LastBranch -> "LastBranch"
+  | LastCommitHash -> "LastCommitHash" | LastCommitHashShort -> "LastCommitHashShort" | LastTimestamp -> "LastTimestamp"
+  | Custom _ | Ts _ -> "?"
+
+let enc_comp = function
+  | CStr s -> "s:" ^ field_of_str s
+  | CUInt n -> "u:" ^ dec_of_n n
+  | CVar (Custom n) -> "c:" ^ field_of_str n
+  | CVar (Ts p) -> "t:" ^ field_of_str p
+  | CVar v -> "v:" ^ var_name v
+
+let prec_name = function
+  | PEpoch -> "Epoch" | PMajor -> "Major" | PMinor -> "Minor" | PPatch -> "Patch" | PCore -> "Core" | PPreLabel -> "PreReleaseLabel"
+  | PPreNum -> "PreReleaseNum" | PPost -> "Post" | PDev -> "Dev" | PExtraCore -> "ExtraCore" | PBuild -> "Build"
+
+let rec enc_json j =
+  match j with
+  | JNull -> [ "jn" ]
+  | JBool true -> [ "jt" ]
+  | JBool false -> [ "jf" ]
+  | JNum t -> [ "j#" ^ field_of_str t ]
+  | JStr s -> [ "j$" ^ field_of_str s ]
+  | JArr l -> ("ja" ^ string_of_int (List.length l)) :: List.concat_map enc_json l
+  | JObj l -> ("jo" ^ string_of_int (List.length l)) :: List.concat_map (fun (k, v) -> field_of_str k :: enc_json v) l
+
+let enc_zerv (z : zerv) : string =
+  let s = z.z_schema and v = z.z_vars in
+  let part l = string_of_int (List.length l) :: List.map enc_comp l in
+  let prec = Model.prec_order s in     (* the IndexMap keeps the first occurrence of each level *)
+  String.concat " "
+    ([ "Z" ] @ part s.s_core @ part s.s_extra @ part s.s_build
+     @ (string_of_int (List.length prec) :: List.map prec_name prec)
+     @ [ on v.v_major; on v.v_minor; on v.v_patch; on v.v_epoch;
+         (match v.v_pre with None -> "~" | Some p -> (match p.pr_label with Alpha -> "a" | Beta -> "b" | Rc -> "rc") ^ "/" ^ on p.pr_num);
+         on v.v_post; on v.v_dev; on v.v_distance; (match v.v_dirty with None -> "~" | Some true -> "1" | Some false -> "0");
+         os v.v_bumped_branch; os v.v_bumped_hash; on v.v_bumped_ts; os v.v_last_branch; os v.v_last_hash; on v.v_last_ts; os v.v_last_tag ]
+     @ enc_json v.v_custom)
